@@ -146,8 +146,8 @@ func execSched(h *caseHdr, ev M, line []byte) any {
 					ps[e.p].state = "done"
 				} else {
 					ps[e.p].state = "parked"
-					hooks = append(hooks, M{"p": e.p, "point": e.point})
 				}
+				hooks = append(hooks, M{"p": e.p, "point": e.point})
 				if e.p == p {
 					return
 				}
@@ -179,8 +179,8 @@ func execSched(h *caseHdr, ev M, line []byte) any {
 					ps[e.p].state = "done"
 				} else {
 					ps[e.p].state = "parked"
-					hooks = append(hooks, M{"p": e.p, "point": e.point})
 				}
+				hooks = append(hooks, M{"p": e.p, "point": e.point})
 			case <-time.After(30 * time.Millisecond):
 				return
 			}
